@@ -124,12 +124,16 @@ def tagged_rule(ctx):
 
     def tagc(run, node, recv):
         if isinstance(recv, tuple) and recv[0] == "tagc":
-            return ("Some", recv[1]) if recv[1] is not None else ("None",)
+            # a non-literal constraint `#6.<t>` has no literal value
+            return ("Some", recv[1]) if recv[1] is not None and recv[1] != "type" else ("None",)
         return NotImplemented
-    for con in (None, 5):
+    type_visits = []
+    for con in (None, 5, "type"):
         for content_ok in (True, False):
             for dk, dv in docs.items():
-                key = "#6%s(t)|content %s|%s" % ("" if con is None else ".%d" % con, "ok" if content_ok else "fails", dk)
+                if con == "type" and not (content_ok and dk.startswith("tag")):
+                    continue
+                key = "#6%s(t)|content %s|%s" % ("" if con is None else (".<t>" if con == "type" else ".%d" % con), "ok" if content_ok else "fails", dk)
                 obj = vt.self_obj("cbor", dv)
                 guard = absint.PyMap()
                 guard[absint.hkey(("str", "t\x00/loc"))] = None
@@ -164,6 +168,13 @@ def tagged_rule(ctx):
                     continue
                 nerr = r.errors + len(obj[2]["errors"])
                 is_tag = dk.startswith("tag")
+                if con == "type":
+                    # RFC 9682 3.2: `#6.<t>(content)` matches a tag whose *number* is in t. Whatever t is, a verdict that does not
+                    # depend on it is wrong for some t: the constraint has to be evaluated (here: some visit beyond the content)
+                    ctx.site(rid, key, CBORF, fi.line, {"verdict": "accept" if nerr == 0 else "reject", "content_visits": len(sub)})
+                    if nerr == 0 and len(sub) <= 1:
+                        type_visits.append(dk)
+                    continue
                 exp = is_tag and (con is None or dk == "tag%d" % con) and content_ok
                 verdict = nerr == 0
                 ctx.site(rid, key, CBORF, fi.line, {"verdict": "accept" if verdict else "reject", "content_visits": len(sub)})
@@ -179,6 +190,9 @@ def tagged_rule(ctx):
                                   "CBOR validator %ss a %s document for `#6%s(t)` with content %s; RFC 8610 section 3.6 says %s"
                                   % ("accept" if verdict else "reject", dk, "" if con is None else ".%d" % con, "accepted by t" if content_ok else "rejected by t",
                                      "accept" if exp else "reject"))
+    if type_visits:
+        ctx.violation(rid, "#6.<t>|tag-number-not-checked", CBORF, fi.line, "`#6.<t>(content)` accepts the tagged items %s without evaluating t: any tag "
+                      "number matches (RFC 9682: the tag number is an instance of t)" % sorted(type_visits))
 
 
 def run(ctx):
